@@ -1043,6 +1043,61 @@ theorem c18_subgroups_siblings_kept (tbl : SgTable) (fuel : Nat) (obj r x : Val)
         simp only [getPath_cons_inst, hfr]
     · cases fuel' <;> simp [replaceSg] at hrec
 
+/-! #### order of the entries of a flat selection
+
+`_unflatten_selection_dict` (and `unflattenSel`, which mirrors it with insertion-ordered association
+lists) is order-*sensitive* only in the insertion order of the dict it builds: a parent entry that comes
+after its dotted children ends up *behind* them in the sub-dict (`{'b': x, '__key__': y}` instead of
+`{'__key__': y, 'b': x}`).  `replace_subgroups` looks entries up by name, so the outcome does not depend on
+that order. -/
+
+theorem unflattenSel_child_parent (a b : Str) (x y : Val) (ha : '.' ∉ a) (hb : '.' ∉ b) (hbk : b ≠ keyword) :
+    unflattenSel [(joinDot [a, b], x), (a, y)] = [(a, .dict [(b, x), (keyword, y)])] := by
+  have hs : splitDot (joinDot [a, b]) = [a, b] :=
+    splitOnChar_join '.' [a, b] (by simp) (by intro s hs; simp at hs; rcases hs with rfl | rfl <;> assumption)
+  have hsa : splitDot a = [a] := splitOnChar_noSep '.' a ha
+  simp [unflattenSel, selTops, selStep, hs, hsa, dset, dget, joinWith, hbk]
+
+theorem unflattenSel_parent_child (a b : Str) (x y : Val) (ha : '.' ∉ a) (hb : '.' ∉ b) (hbk : b ≠ keyword) :
+    unflattenSel [(a, y), (joinDot [a, b], x)] = [(a, .dict [(keyword, y), (b, x)])] := by
+  have hs : splitDot (joinDot [a, b]) = [a, b] :=
+    splitOnChar_join '.' [a, b] (by simp) (by intro s hs; simp at hs; rcases hs with rfl | rfl <;> assumption)
+  have hsa : splitDot a = [a] := splitOnChar_noSep '.' a ha
+  have hkb : keyword ≠ b := fun e => hbk e.symm
+  simp [unflattenSel, selTops, selStep, hs, hsa, dset, dget, joinWith, hkb]
+
+/-- the field loop sees a selection entry only through `(value_of_selection, child_selections)` -/
+theorem sgFields_congr_selSplit (tbl : SgTable) (recur : Val → Dict → Out Val) (cls a : Str) (s1 s2 : Val)
+    (h : selSplit s1 = selSplit s2) (fs : List Fld) :
+    sgFields tbl recur cls fs [(a, s1)] = sgFields tbl recur cls fs [(a, s2)] := by
+  induction fs with
+  | nil => rfl
+  | cons f rest ih =>
+    obtain ⟨n, i, v, d⟩ := f
+    by_cases han : a = n
+    · subst han
+      simp only [sgFields, dget, if_true, ddel, h]
+    · simp only [sgFields, dget, han, if_false, ih]
+
+/-- **The order of a parent entry and its dotted child entry does not matter**:
+    `replace_subgroups(obj, {"a.b": x, "a": y})` = `replace_subgroups(obj, {"a": y, "a.b": x})`, whatever the outcome. -/
+theorem c18_subgroups_entry_order (tbl : SgTable) (fuel : Nat) (obj x y : Val) (a b : Str)
+    (ha : '.' ∉ a) (hb : '.' ∉ b) (hbk : b ≠ keyword) :
+    replaceSg tbl fuel obj [(joinDot [a, b], x), (a, y)] = replaceSg tbl fuel obj [(a, y), (joinDot [a, b], x)] := by
+  have hkb : keyword ≠ b := fun e => hbk e.symm
+  have hsp : selSplit (.dict [(b, x), (keyword, y)]) = selSplit (.dict [(keyword, y), (b, x)]) := by
+    simp [selSplit, dget, ddel, hbk, hkb]
+  cases fuel with
+  | zero => rfl
+  | succ f =>
+    cases obj with
+    | inst cls fs =>
+      simp only [replaceSg, unflattenSel_child_parent a b x y ha hb hbk, unflattenSel_parent_child a b x y ha hb hbk,
+        sgFields_congr_selSplit tbl _ cls a _ _ hsp fs]
+    | _ => rfl
+
+example : ('.' ∉ ['m']) ∧ ('.' ∉ ['a', 'c', 't']) ∧ (['a', 'c', 't'] ≠ keyword) := by decide
+
 /-- hypotheses of `c18_subgroups_siblings_kept`, and the input that refuted the statement before the repair:
     `c.n = AB(s=A(5), k=9)`, selection `{"n.s": "b"}` now keeps `n.k == 9`. -/
 example :
